@@ -56,6 +56,11 @@ class CryptoEndpoint(metaclass=abc.ABCMeta):
         Set up the TunnelCommunity.
         """
 
+    def teardown_tunnels(self) -> None:
+        """
+        Stop handing packets to the TunnelCommunity, which is unloading.
+        """
+
     @abc.abstractmethod
     def send_cell(self, target_addr: Address, cell: CellPayload) -> None:
         """
@@ -89,6 +94,13 @@ class PythonCryptoEndpoint(CryptoEndpoint, EndpointListener):
         self.endpoint.remove_listener(self)
         self.endpoint.add_prefix_listener(self, self.prefix)
         self.tunnel_community = tunnel_community
+
+    def teardown_tunnels(self) -> None:
+        """
+        Remove the prefix listener that setup_tunnels installed and forget the TunnelCommunity.
+        """
+        self.endpoint.remove_listener(self)
+        self.tunnel_community = None
 
     @property
     def max_relay_early(self) -> int:
